@@ -67,10 +67,26 @@ func (h Handler) HandleIQ(iq stanza.IQ, r xmlstream.TokenReadEncoder, start *xml
 	iter := xmlstream.NewIter(r)
 	var found bool
 	for iter.Next() {
-		found = true
 		itemStart, r := iter.Current()
-		jstr := itemStart.Attr[0].Value
-		j := jid.MustParse(jstr)
+		// Skip anything that is not an element (eg. character data between the
+		// items).
+		if itemStart == nil {
+			continue
+		}
+		found = true
+		// The payload comes from the peer: the JID may be missing, may not be the
+		// first attribute, and may not be a valid JID.
+		var jstr string
+		for _, attr := range itemStart.Attr {
+			if attr.Name.Local == "jid" {
+				jstr = attr.Value
+				break
+			}
+		}
+		j, err := jid.Parse(jstr)
+		if err != nil {
+			return err
+		}
 		switch start.Name.Local {
 		case "block":
 			item := Item{}
